@@ -445,9 +445,16 @@ impl FromStr for PublicKey {
     type Err = error::Format;
 
     fn from_str(s: &str) -> Result<Self, Self::Err> {
-        let (_, public_key) = biscuit_parser::parser::public_key(s)
+        let (rest, public_key) = biscuit_parser::parser::public_key(s)
             .finish()
             .map_err(|e| error::Format::InvalidKey(e.to_string()))?;
+        // like the other `FromStr` implementations, only trailing spaces are allowed
+        if !rest.trim_start_matches([' ', '\t']).is_empty() {
+            return Err(error::Format::InvalidKey(format!(
+                "unexpected trailing data after public key: '{}'",
+                rest
+            )));
+        }
         PublicKey::from_bytes(
             &public_key.key,
             match public_key.algorithm {
